@@ -238,13 +238,14 @@ def pair_configs():
              S("MovingWindow", change_score=r, bandwidth=3, threshold_scale=None, level=0.2), quick=False),
         # composite scorers sharing one cost instance (with each other / with a detector)
         Pair("ChangeScore+ChangeScore/L2Cost", {"s": S("L2Cost")}, S("ChangeScore", cost=r), S("ChangeScore", cost=r), deep=True),
-        Pair("ChangeScore+PELT/L2Cost", {"s": S("L2Cost")}, S("ChangeScore", cost=r), S("PELT", cost=r, **pelt)),
+        Pair("ChangeScore+PELT/L2Cost", {"s": S("L2Cost")}, S("ChangeScore", cost=r), S("PELT", cost=r, **pelt), quick=False, deep=True),
         Pair("Saving+CAPA/L2Cost(0)", {"s": S("L2Cost", param=0.0)}, S("Saving", baseline_cost=r),
-             S("CAPA", collective_saving=r, point_saving=r, **capa)),
-        Pair("LocalAnomalyScore+Saving/L2Cost(0)", {"s": S("L2Cost", param=0.0)}, S("LocalAnomalyScore", cost=r), S("Saving", baseline_cost=r),
-             quick=False),
-        Pair("LocalAnomalyScore+MovingWindow/L2Cost", {"s": S("L2Cost")}, S("LocalAnomalyScore", cost=r),
-             S("MovingWindow", change_score=r, bandwidth=2, threshold_scale=1.0)),
+             S("CAPA", collective_saving=r, point_saving=r, **capa), quick=False, deep=True),
+        Pair("LocalAnomalyScore+Saving/L2Cost(0)", {"s": S("L2Cost", param=0.0)}, S("LocalAnomalyScore", cost=r), S("Saving", baseline_cost=r)),
+        Pair("LocalAnomalyScore+MovingWindow(tuned)/L2Cost", {"s": S("L2Cost")}, S("LocalAnomalyScore", cost=r),
+             S("MovingWindow", change_score=r, bandwidth=2, threshold_scale=None, level=0.2)),
+        Pair("ChangeScore+SeededBinarySegmentation(tuned)/GaussianVarCost", {"s": S("GaussianVarCost")}, S("ChangeScore", cost=r),
+             S("SeededBinarySegmentation", change_score=r, **{**sbs, "threshold_scale": None, "level": 0.3, "min_segment_length": 2}), quick=False),
     ]
 
 
@@ -834,11 +835,14 @@ def run(tier="quick", seed=0, repo="/repo"):
                 run_container(ctx, cfg, p, kind, rec, buf)
     timing["N-containers"] = round(time.time() - t0, 1)
     buf.flush(rec)
+    nd = sum(1 for c in detector_configs() if c.quick or not quick)
+    npairs = sum(1 for c in pair_configs() if c.quick or not quick)
     bound = (f"histories of length <= {L} over construct/clone/set_params/fit(D1|D2)/predict|transform|transform_scores(D1|D2) "
-             f"[scorers: evaluate(2 cut sets)] on {'7' if quick else '16'} detector and 11 scorer configurations (7 detector, 8 scorer "
-             f"classes); {'8' if quick else '13'} sharing pairs, interleavings of length <= {3 if quick else 4}; 4 update scripts x 3 pandas "
-             "containers x 2 index types; 7 containers; D1 12x1, D2 10x2"
-             + ("" if quick else "; thorough length 4 keeps transform as the last call only (length 3 has it everywhere)"))
+             f"[scorers: evaluate(2 cut sets)] on {nd} detector and {len(scorer_configs())} scorer configurations (7 detector, 8 scorer "
+             f"classes); {npairs} sharing pairs, interleavings of length <= {3 if quick else 4}; {len(UPDATE_SCRIPTS)} update scripts x 3 "
+             f"pandas containers x 2 index types; {len(CONTAINERS)} containers; D1 12x1, D2 10x2"
+             + ("" if quick else "; length-4 detector histories keep transform as the last call only and run on the 7 main "
+                "configurations, length 3 has the full alphabet on all; length-4 interleavings on the 6 'deep' pairs"))
     return rec.result(RULE, bound, exhaustive=True, timing=timing)
 
 
